@@ -70,32 +70,27 @@ func unhex(c byte) byte {
 // character), case-insensitively — the subset of filepath.Match the generator uses.
 func glob(pattern, s string) bool {
 	p, t := []rune(strings.ToLower(pattern)), []rune(strings.ToLower(s)) // "?" is one character, not one byte
-	var rec func(i, j int) bool
-	rec = func(i, j int) bool {
-		for i < len(p) {
-			switch p[i] {
-			case '*':
-				for k := j; k <= len(t); k++ {
-					if rec(i+1, k) {
-						return true
-					}
-				}
-				return false
-			case '?':
-				if j >= len(t) {
-					return false
-				}
-			default:
-				if j >= len(t) || p[i] != t[j] {
-					return false
-				}
-			}
+	// iterative matcher with single-star backtracking: O(len(p) * len(t))
+	i, j, star, mark := 0, 0, -1, 0
+	for j < len(t) {
+		switch {
+		case i < len(p) && (p[i] == '?' || p[i] == t[j]) && p[i] != '*':
 			i++
 			j++
+		case i < len(p) && p[i] == '*':
+			star, mark = i, j
+			i++
+		case star >= 0:
+			mark++
+			i, j = star+1, mark
+		default:
+			return false
 		}
-		return j == len(t)
 	}
-	return rec(0, 0)
+	for i < len(p) && p[i] == '*' {
+		i++
+	}
+	return i == len(p)
 }
 
 var c12Hosts = []string{"example.com", "Example.COM", "chat.example.com", "example.com:8080", "localhost", "localhost:3000", "127.0.0.1", "127.0.0.1:8443", "[::1]", "[::1]:9000", "a.b.c.example.org", "xn--bcher-kva.example"}
@@ -285,6 +280,9 @@ func FuzzC12(f *testing.F) {
 	f.Fuzz(func(t *testing.T, host, origin, pattern string) {
 		if host == "" || strings.ContainsAny(host, " \t\r\n/?#@\\") || strings.ContainsAny(pattern, "[\\") || strings.ContainsAny(origin, "\r\n") {
 			t.Skip()
+		}
+		if len(host) > 100 || len(origin) > 300 || len(pattern) > 40 {
+			t.Skip() // header sizes beyond anything a browser sends only slow the campaign down
 		}
 		// header values as a browser and net/http produce them: printable ASCII
 		for _, s := range []string{host, origin, pattern} {
